@@ -218,10 +218,19 @@ fn gen_impl_delegation_trait_defs(
                     continue;
                 }
 
+                // `__impl` is borrowed for as long as the receiver is
+                let lifetime = match trait_fn.sig().inputs.first() {
+                    Some(syn::FnArg::Receiver(syn::Receiver {
+                        reference: Some((_, lifetime)),
+                        ..
+                    })) => lifetime.clone(),
+                    _ => None,
+                };
+
                 trait_fn.entrait_sig.sig.inputs.insert(
                     1,
                     syn::parse_quote! {
-                        __impl: &::#entrait::Impl<EntraitT>
+                        __impl: & #lifetime ::#entrait::Impl<EntraitT>
                     },
                 );
             }
